@@ -228,3 +228,149 @@ package gts
 //@   requires emod(ambiguous.Start, length) < emod(ambiguous.End - 1, length) + 1
 //@   ensures is(out, Ambiguous) && out.(Ambiguous) == Ambiguous{emod(ambiguous.Start, length), emod(ambiguous.End - 1, length) + 1}
 //@   assigns nothing
+
+// ---------------------------------------------------------------------------
+// modifier.go (C08): ^ is the 5' end and $ the 3' end in the direction of the strand
+
+//@ func (mod Head) Apply(head, tail int) (h int, t int)
+//@   prop C08
+//@   requires coord(head) && coord(tail) && coord(int(mod))
+//@   decreases ite(tail < head, 1, 0)
+//@   ensures head <= tail ==> h == head + int(mod) && t == h
+//@   ensures tail < head ==> h == head - int(mod) && t == h
+
+//@ func (mod Tail) Apply(head, tail int) (h int, t int)
+//@   prop C08
+//@   requires coord(head) && coord(tail) && coord(int(mod))
+//@   decreases ite(tail < head, 1, 0)
+//@   ensures head <= tail ==> h == tail + int(mod) && t == h
+//@   ensures tail < head ==> h == tail - int(mod) && t == h
+
+//@ func (mod HeadTail) Apply(head, tail int) (h int, t int)
+//@   prop C08
+//@   requires coord(head) && coord(tail) && coord(mod[0]) && coord(mod[1])
+//@   decreases ite(tail < head, 1, 0)
+//@   ensures head <= tail ==> h == head + mod[0] && t == max(h, tail + mod[1])
+//@   ensures tail < head ==> h == head - mod[0] && t == min(h, tail - mod[1])
+
+//@ func (mod HeadHead) Apply(head, tail int) (h int, t int)
+//@   prop C08
+//@   requires coord(head) && coord(tail) && coord(mod[0]) && coord(mod[1])
+//@   decreases ite(tail < head, 1, 0)
+//@   ensures head <= tail ==> h == head + mod[0] && t == max(h, head + mod[1])
+//@   ensures tail < head ==> h == head - mod[0] && t == min(h, head - mod[1])
+
+//@ func (mod TailTail) Apply(head, tail int) (h int, t int)
+//@   prop C08
+//@   requires coord(head) && coord(tail) && coord(mod[0]) && coord(mod[1])
+//@   decreases ite(tail < head, 1, 0)
+//@   ensures head <= tail ==> h == tail + mod[0] && t == max(h, tail + mod[1])
+//@   ensures tail < head ==> h == tail - mod[0] && t == min(h, tail - mod[1])
+
+// Resizing commutes with strand mirroring: Apply(-head, -tail) == -Apply(head, tail).
+
+// ---------------------------------------------------------------------------
+// utils.go: Abs
+
+//@ func Abs(x int) (r int)
+//@   prop C08 C09
+//@   requires -9223372036854775807 <= x
+//@   ensures r == abs(x)
+
+// ---------------------------------------------------------------------------
+// region.go: Segment
+
+//@ func (s Segment) Len() (n int)
+//@   prop C08 C09
+//@   requires coord(s[0]) && coord(s[1])
+//@   ensures n == abs(s[1] - s[0])
+
+//@ func (s Segment) Head() (h int)
+//@   prop C08 C15
+//@   ensures h == s[0]
+
+//@ func (s Segment) Tail() (t int)
+//@   prop C08
+//@   ensures t == s[1]
+
+//@ func (s Segment) Complement() (out Region)
+//@   prop C05 C08
+//@   ensures is(out, Segment) && out.(Segment)[0] == s[1] && out.(Segment)[1] == s[0]
+//@   assigns nothing
+
+// ---------------------------------------------------------------------------
+// region.go: BySegment order (C09, C18)
+
+//@ spec func segLess(a0 int, a1 int, b0 int, b1 int) bool =
+//@   min(a0, a1) < min(b0, b1) || (min(a0, a1) == min(b0, b1) && max(a0, a1) < max(b0, b1))
+
+//@ func (ss BySegment) Less(i, j int) (r bool)
+//@   prop C09 C18
+//@   requires 0 <= i && i < len(ss) && 0 <= j && j < len(ss)
+//@   ensures r <==> segLess(ss[i][0], ss[i][1], ss[j][0], ss[j][1])
+//@   assigns nothing
+
+//@ func (ss BySegment) Len() (n int)
+//@   prop C09 C18
+//@   ensures n == len(ss)
+
+//@ func (ss BySegment) Swap(i, j int)
+//@   prop C09 C18
+//@   requires 0 <= i && i < len(ss) && 0 <= j && j < len(ss)
+//@   ensures ss[i] == old(ss[j]) && ss[j] == old(ss[i])
+//@   ensures forall k in 0..len(ss): k != i && k != j ==> ss[k] == old(ss[k])
+
+// BySegment.Less is a strict weak order (licence for sort.Sort).
+//@ lemma segLessIrreflexive(a0, a1 int)
+//@   prop C09 C18
+//@   ensures !segLess(a0, a1, a0, a1)
+//@ lemma segLessTransitive(a0, a1, b0, b1, c0, c1 int)
+//@   prop C09 C18
+//@   ensures segLess(a0, a1, b0, b1) && segLess(b0, b1, c0, c1) ==> segLess(a0, a1, c0, c1)
+//@ lemma segLessIncomparableTransitive(a0, a1, b0, b1, c0, c1 int)
+//@   prop C09 C18
+//@   ensures !segLess(a0, a1, b0, b1) && !segLess(b0, b1, a0, a1) && !segLess(b0, b1, c0, c1) && !segLess(c0, c1, b0, b1) ==>
+//@      !segLess(a0, a1, c0, c1) && !segLess(c0, c1, a0, a1)
+
+// ---------------------------------------------------------------------------
+// nucleotide.go (C18, C05)
+
+//@ func replaceBytes(p, old, new []byte) (q []byte)
+//@   prop C18 C05 C11
+//@   requires len(new) >= len(old)
+//@   ensures len(q) == len(p) && fresh(q)
+//@   ensures keep: forall k in 0..len(p): (forall j in 0..len(old): old[j] != p[k]) ==> q[k] == p[k]
+//@   ensures repl: forall k in 0..len(p): forall j in 0..len(old): (old[j] == p[k] && (forall m in 0..j: old[m] != p[k])) ==> q[k] == new[j]
+//@   assigns nothing
+//@   loop 1: invariant len(q) == len(p) && fresh(q) && cap(q) == len(q)
+//@   loop 1: invariant forall k in 0..i: (forall j in 0..len(old): old[j] != p[k]) ==> q[k] == p[k]
+//@   loop 1: invariant forall k in 0..i: forall j in 0..len(old): (old[j] == p[k] && (forall m in 0..j: old[m] != p[k])) ==> q[k] == new[j]
+//@   loop 1: decreases len(p) - i
+
+// ---------------------------------------------------------------------------
+// region.go: Minimize / Invert (C09)
+
+// covR(r, x): residue x is covered by region r (any strand, any nesting).
+//@ spec func covR(r Region, x int) bool uninterpreted
+
+//@ func flattenRegion(arg Region) (ss []Segment)
+//@   prop C09
+//@   trusted recursive over nested Regions values; coverage is stated over the uninterpreted covR
+//@   ensures fresh(ss)
+//@   ensures forall k in 0..len(ss): ss[k][0] <= ss[k][1]
+//@   ensures sound: forall k in 0..len(ss): forall x: inSeg(ss[k][0], ss[k][1], x) ==> covR(arg, x)
+//@   assigns nothing
+
+//@ func Minimize(arg Region) (ss []Segment)
+//@   prop C09 C15
+//@   ensures fresh(ss)
+//@   ensures forward: forall k in 0..len(ss): ss[k][0] <= ss[k][1]
+//@   ensures separated: forall k in 0..len(ss)-1: ss[k][1] < ss[k+1][0]
+//@   ensures sound: forall k in 0..len(ss): forall x: inSeg(ss[k][0], ss[k][1], x) ==> covR(arg, x)
+//@   assigns nothing
+//@   loop 1: invariant fresh(ss) && 0 <= i && (i < len(ss) || len(ss) == 0)
+//@   loop 1: invariant forall k in 0..len(ss): ss[k][0] <= ss[k][1]
+//@   loop 1: invariant forall k in 0..len(ss)-1: ss[k][0] <= ss[k+1][0]
+//@   loop 1: invariant forall k in 0..i: ss[k][1] < ss[k+1][0]
+//@   loop 1: invariant forall k in 0..len(ss): forall x: inSeg(ss[k][0], ss[k][1], x) ==> covR(arg, x)
+//@   loop 1: decreases 2*len(ss) - i
